@@ -88,21 +88,21 @@ namespace Impl
 def versionOk (s : KSt) (f : String) : Bool :=
   isEqual (verOf s.old.versions f) (verOf s.newVersions f)
 
-/-- the regular file physically at `p`, if any -/
-def phys (s : KSt) (p : Path) : Option Entry :=
+/-- `_noneable_file_comparison_result` of the leftover at the old output path `p` -/
+def cmpShelf (s : KSt) (p : Path) (cmp : Cmp) : Json :=
   match s.shelf.get p with
-  | some e => if p = [] then s.sp.fs.get p else some e
-  | none => s.sp.fs.get p
+  | some (.file b m) => if p = [] then .null else View.cmpResult cmp b m
+  | _ => .null
 
-/-- `_noneable_file_comparison_result` -/
-def cmpNow (s : KSt) (p : Path) (cmp : Cmp) : Json :=
-  match phys s p with
+/-- `_noneable_file_comparison_result` of the file just built at `p` -/
+def cmpBuilt (s : KSt) (p : Path) (cmp : Cmp) : Json :=
+  match s.sp.fs.get p with
   | some (.file b m) => View.cmpResult cmp b m
   | _ => .null
 
-/-- `_is_build_file_cached` -/
+/-- `_is_build_file_cached`: does the leftover at `p` still match the recorded comparison result? -/
 def outputMatches (s : KSt) (p : Path) (cmp : Cmp) (recorded : Json) : Bool :=
-  isEqual recorded (cmpNow s p cmp)
+  isEqual recorded (cmpShelf s p cmp)
 
 /-- leftovers physically in the way of building `path`: those below it (`_make_room`) and those at the
     directories that have to be made (`_make_dirs`) -/
@@ -124,7 +124,9 @@ def adopt (s : KSt) (p : Path) (made : List Path) : KSt :=
 def unwind (s : KSt) (p : Path) (made : List Path) : KSt :=
   let sp := { s.sp with inProg := s.sp.inProg.erase p }
   let fs2 := Spec.rmEmpty sp.fs made
-  { s with sp := { sp with fs := fs2, createdDirs := (made.filter fs2.isDir) ++ sp.createdDirs } }
+  -- directories that stay (they hold reused outputs) were really made: leftovers in their way are gone
+  { s with shelf := s.shelf.filter (fun x => !(made.contains x.1 && fs2.isDir x.1)),
+           sp := { sp with fs := fs2, createdDirs := (made.filter fs2.isDir) ++ sp.createdDirs } }
 
 mutual
 /-- `_is_build_file_operation_cached` / `_is_subbuild_operation_cached` /
@@ -140,7 +142,10 @@ def replayOp : Op → KSt → Option KSt
     else if !raised && !outputMatches s path cmp cmpRes then none
     else if setupFailed then none
     else if s.sp.claimedFiles.contains path || path == s.sp.cacheFile then none
-    else if raised && View.exists_ (Spec.visible s.sp) path then none
+    -- the target must be absent from the virtual tree (for a record that raised the Python tests
+    -- `exists(filename, created_files)`; for the others it is implied: an old output path is
+    -- virtually absent until it is re-finished, and then it is claimed)
+    else if (s.sp.fs.get path).isSome then none
     else match Spec.dirsToMake (Spec.visible s.sp) s.sp.cacheFile s.sp.inProg path.dropLast with
       | .error _ => none
       | .ok made =>
@@ -177,7 +182,7 @@ def lookupFile (s : KSt) (path : Path) (cmp : Cmp) (fname : String) (args kwargs
       match replayOps subs s with
       | none => none
       | some s2 =>
-        match cmpNow s2 path cmp with
+        match cmpShelf s2 path cmp with
         | .null => none
         | now => some (.buildFile path cmp fname args kwargs subs ret now false false content, adopt s2 path made)
     else none
@@ -243,7 +248,7 @@ def run : Prog → Option Path → KSt → CallRes × KSt × List Op
         let op := match r' with
           | .ok j =>
             let content := match s3.sp.fs.get path with | some (.file b _) => b | _ => ""
-            Op.buildFile path cmp fname args kwargs subs j (cmpNow s3 path cmp) false false content
+            Op.buildFile path cmp fname args kwargs subs j (cmpBuilt s3 path cmp) false false content
           | .error _ =>
             -- `operation.return_value` is assigned before the "didn't create that file" check
             let kept := match rb with | .ok j => j | .error _ => .null
